@@ -8,8 +8,8 @@ use serde_json::{json, Value};
 pub const PACKAGES: [&str; 7] = ["com.palantir.verif", "com.palantir.verif.sub", "com.palantir.verif.sub.deep", "org.other.api", "com.palantir.verif.billing.common", "com.palantir.verif.orders.common", "com.palantir.other.sub"];
 
 /// names that are Rust keywords or otherwise awkward once converted to snake_case / CamelCase
-pub const FIELD_NAMES: [&str; 40] = [
-    "type", "match", "async", "self", "loop", "ref", "box", "fn", "mod", "move", "use", "in", "as", "dyn", "impl", "trait", "struct", "enum", "union", "where", "while", "yield", "abstract", "become", "final", "macro", "override", "priv", "typeof", "unsized", "virtual", "static", "super", "crate", "const", "fieldName", "field2Name", "x", "valueWithACRONYMInside", "new",
+pub const FIELD_NAMES: [&str; 41] = [
+    "type", "match", "async", "self", "loop", "ref", "box", "fn", "mod", "move", "use", "in", "as", "dyn", "impl", "trait", "struct", "enum", "union", "where", "while", "yield", "abstract", "become", "final", "macro", "override", "priv", "typeof", "unsized", "virtual", "static", "super", "crate", "const", "fieldName", "field2Name", "x", "valueWithACRONYMInside", "new", "gen",
 ];
 
 #[derive(Clone, Debug, PartialEq)]
